@@ -234,6 +234,24 @@ func patternTrial(p string) (step, class, obs, exp string, outcome string) {
 			return "Handle(populated)", "handle-panic-not-error:" + pc, fmt.Sprintf("panic(%T): %v", v, v), "registered, or panic with an error value", outcome
 		}
 	}
+	// router with interceptors (the rule texts digit/word/any and \d+ become interceptors): registers or panics
+	// with an error value, then serves without panic
+	if len(p) <= 5 || strings.Contains(p, ":d") || strings.Contains(p, `\d+`) {
+		ri := NewRouter(RouterCfg{IC: "I2"}, mux.WithInterceptor(func(s string) bool { return len(s) > 1 }, "d", "a", "b", "+", "*"))
+		if v, bad := Guard(func() { ri.Handle(p, hv.Route("h"), nil, "GET") }); bad {
+			if pc := PanicClass(v); pc != "error" {
+				return "Handle(router with interceptors)", "handle-panic-not-error:" + pc, fmt.Sprintf("panic(%T): %v", v, v), "registered, or panic with an error value", outcome
+			}
+		}
+		for _, path := range []string{p, "/a", "/aa", "/a/b", "/12", ""} {
+			if o := hv.Serve(ri, hv.Req{Method: "GET", Path: path}); o.Paniced {
+				return "Serve(router with interceptors) " + fmt.Sprintf("%q", path), "serve-panic-after-handle", fmt.Sprintf("panic: %v", o.Panic), "no panic", outcome
+			}
+		}
+		if v, bad := Guard(func() { ri.URL(true, p, map[string]string{"a": "11", "b": "22", "d": "33"}) }); bad {
+			return "Router.URL(strict, router with interceptors)", "router-url-panic", fmt.Sprintf("panic: %v", v), "a string or an error", outcome
+		}
+	}
 	// router that already has the same pattern up to parameter names: the ambiguity check walks it
 	if pp, err := ref.Parse(p, ref.Interceptors{}); err == nil && len(pp.AllNames()) > 0 {
 		for _, flip := range []bool{false, true} {
@@ -309,7 +327,7 @@ func init() {
 			"(a) every state of the C03 history search up to the depth bound is probed with 6 method strings (incl. empty and unknown) x hostile paths: '', '*', all strings over {/ a { } : * 0x00 0x80 0xff} up to length 2-3, witnesses and their edit-1 neighbours, 32767/32768/65536-byte paths",
 			"(a') groups with one router behind each matcher kind (Hosts, path version, header version, And, Or, nil) x hostile Host strings (all strings over {a . : [ ] * { 0xff} up to length 3 and a fixed list) x paths x Accept values; matchers also called directly",
 			"(a'') every CORS configuration of C11 x every request of its product extended with malformed Access-Control-Request-Headers values: no panic",
-			"(b) every pattern string over {/ a b { } : - \\ d + ( *} up to the length bound, and every rule text over {a b ( ) | \\ d + * [ ] ? ^ $} up to the rule bound wrapped as /{a:R}, /{a:R}/b, /{-a:R}b, /a/{a:R}, through CheckSyntax, mux.URL, Router.URL (strict and not), Handle on a fresh and on a populated router, then served",
+			"(b) every pattern string over {/ a b { } : - \\ d + ( *} up to the length bound (quick: length 6 only for strings starting with '/{' or '{', length 5 otherwise), and every rule text over {a b ( ) | \\ d + * [ ] ? ^ $} up to the rule bound wrapped as /{a:R}, /{a:R}/b, /{-a:R}b, /a/{a:R}, through CheckSyntax, mux.URL, Router.URL (strict and not), Handle on a fresh and on a populated router, then served",
 			"a harness handler never panics on its own; a nil handler given to the CallFunc counts as a router fault")
 		for _, cfg := range []RouterCfg{{}, {Trace: true}} {
 			explore.BFS(rc, "c05/expand", histCfg{Router: cfg}, depth, true, "C05 "+cfg.String())
@@ -329,10 +347,14 @@ func init() {
 		pi = append(pi, c05PatItem{Prefix: "", Extra: 1}) // lengths 0..1
 		for _, a := range patternBytes {
 			for _, b := range patternBytes {
-				pi = append(pi, c05PatItem{Prefix: string([]byte{a, b}), Extra: plen - 2})
+				extra := plen - 2
+				if rc.Quick() && !(a == '/' && b == '{') && !(a == '{') {
+					extra-- // quick: full length only where a parameter token can still be completed
+				}
+				pi = append(pi, c05PatItem{Prefix: string([]byte{a, b}), Extra: extra})
 			}
 		}
-		rlen := 5
+		rlen := 4
 		if !rc.Quick() {
 			rlen = 6
 		}
